@@ -85,6 +85,16 @@ def kernel_unit(kind, n, col, spread_form, weighted):
             d1 = L.diff_loss(yh_in, apply_weighting=False) if not weighted else None
             d2 = L.diff2Loss(yh_in, apply_weighting=False) if not weighted else None
             res = L.residual(yh_in)
+            # what a kernel hands back is the caller's to modify (a Gauss-Newton step scales the curvature in place):
+            # keep the values, overwrite the returned arrays, and ask again
+            again = None
+            if not weighted:
+                kept = [v.copy() if isinstance(v, np.ndarray) else v for v in (d1, d2, res)]
+                for v in (d1, d2, res):
+                    if isinstance(v, np.ndarray) and v.flags.writeable and v.ndim > 0:
+                        v[...] = 7.0
+                again = (L.loss(yh_in), L.diff_loss(yh_in, apply_weighting=False), L.diff2Loss(yh_in, apply_weighting=False), L.residual(yh_in))
+                d1, d2, res = kept
         ref_total = zsum(expr.ev(r, env) for r in refs)
         c.prove(near(loss, ref_total, c, tol=1e-7), "%s loss == minus summed reference log density" % kind if kind != "Square" else "Square loss == sum of squared weighted residuals")
         c.prove(all_close(np.asarray(res, dtype=object).ravel(), [(y[i] - yh[i]) * w[i] for i in range(n)], c), "residual == (y - yhat) * weight")
@@ -100,6 +110,11 @@ def kernel_unit(kind, n, col, spread_form, weighted):
             c.prove(all_near(np.asarray(d1, dtype=object).ravel(), d1r, c, tol=1e-7), "diff_loss == d loss / d yhat_i")
             c.prove(all_near(np.asarray(d2, dtype=object).ravel(), d2r, c, tol=1e-7), "diff2Loss == d2 loss / d yhat_i^2")
             c.prove(np.asarray(d1, dtype=object).ravel().shape == (n,) and np.asarray(d2, dtype=object).ravel().shape == (n,), "derivative arrays have one entry per observation")
+            l_b, d1_b, d2_b, res_b = again
+            c.prove(near(l_b, ref_total, c, tol=1e-7) and all_near(np.asarray(d1_b, dtype=object).ravel(), d1r, c, tol=1e-7)
+                    and all_near(np.asarray(d2_b, dtype=object).ravel(), d2r, c, tol=1e-7)
+                    and all_close(np.asarray(res_b, dtype=object).ravel(), [(y[i] - yh[i]) * w[i] for i in range(n)], c),
+                    "loss, diff_loss, diff2Loss and residual are unchanged after the caller overwrote the arrays returned by the previous calls")
     return Unit("C14.%s[n=%d,col=%s,spread=%s,weighted=%s]" % (kind, n, col, spread_form, weighted), h,
                 bounds={"observations": n, "single_column_input": col, "spread": spread_form, "weights": "symbolic" if weighted else "unit",
                         "ranges": "y,yhat in [0.1,40] (integers >= 1 for counts), spread in [0.2,5]",
